@@ -1,6 +1,7 @@
 package props
 
 import (
+	"bytes"
 	"fmt"
 	"reflect"
 	"sync"
@@ -116,7 +117,17 @@ func c01Eval(c *choice.Ctx, st *Stats, a *refmodel.Claims, deep bool) {
 			c.Failf(fmt.Sprintf("C01:valid-claims-do-not-decode:P%d:%s", a.P, how), "DecodeClaimsFromCBOR: %v\n%s", derr, desc)
 		}
 	}
-	// JSON
+	// JSON; and the same document with every '/' spelled with the JSON escape \/ (profile names, base64 texts)
+	if esc := bytes.ReplaceAll(wireJSON(a), []byte("/"), []byte("\\/")); bytes.Contains(esc, []byte("\\/")) {
+		if p, v := safely(func() { dc, derr = psatoken.DecodeClaimsFromJSON(esc) }); p {
+			c.Failf(fmt.Sprintf("C01:panic:P%d:json-escaped-decode:%s", a.P, wantS), "DecodeClaimsFromJSON panicked: %v\n%s", v, esc)
+		} else if derr == nil && (lit == nil || reflect.TypeOf(dc) == wantType) {
+			st.Trans.Add(1)
+			verdict("json-with-escaped-solidus", dc)
+		} else if want && derr != nil {
+			c.Failf(fmt.Sprintf("C01:valid-claims-do-not-decode:P%d:json-with-escaped-solidus", a.P), "DecodeClaimsFromJSON: %v\n%s", derr, desc)
+		}
+	}
 	js := wireJSON(a)
 	if p, v := safely(func() { dc, derr = psatoken.DecodeClaimsFromJSON(js) }); p {
 		c.Failf(fmt.Sprintf("C01:panic:P%d:json-decode:%s", a.P, wantS), "DecodeClaimsFromJSON panicked: %v\n%s", v, js)
@@ -143,6 +154,8 @@ func c01Congruent(p int) [][2]*mcbor.Node {
 		for _, pp := range []int{1, 2} {
 			for _, e := range wireTree(genValidOpt(&choice.Ctx{}, map[int]int{1: kindP1, 2: kindP2}[pp], false, true), true).Pairs {
 				if k, ok := e[0].Int(); ok && k < 0 {
+					// (each preceded by an entry whose last byte is the head byte of an 8-byte unsigned, 0x1b)
+					c01CongruentPairs[pp] = append(c01CongruentPairs[pp], [2]*mcbor.Node{mcbor.U(uint64(77000 + len(c01CongruentPairs[pp]))), mcbor.U(27)})
 					c01CongruentPairs[pp] = append(c01CongruentPairs[pp], [2]*mcbor.Node{mcbor.U(uint64(k)), e[1]})
 				} else if ok {
 					c01CongruentPairs[pp] = append(c01CongruentPairs[pp], [2]*mcbor.Node{mcbor.U(1<<32 + uint64(k)).W(8), e[1]})
